@@ -83,8 +83,9 @@ type LockEvent struct {
 	Held   []Held
 	Ctx    string // "" | "defer" | "lit" | "go" (where the code runs relative to the function body)
 	InLit  *ast.FuncLit
-	Double bool // acquire of a lock already held on this path
-	Stray  bool // release of a lock not held on this path
+	Double bool      // acquire of a lock already held on this path
+	Stray  bool      // release of a lock not held on this path
+	Fn     *FuncInfo // function whose body contains the event
 }
 
 type LockResult struct {
@@ -337,7 +338,10 @@ func (p *Prog) deepLockEvents(fi *FuncInfo, entry []Held, depth int, open map[st
 	return evs
 }
 
-func (la *lockAnalyzer) event(ev *LockEvent) { la.res.Events = append(la.res.Events, ev) }
+func (la *lockAnalyzer) event(ev *LockEvent) {
+	ev.Fn = la.fi
+	la.res.Events = append(la.res.Events, ev)
+}
 
 func applyOp(s lstate, op *LockOp) (lstate, bool, bool) {
 	ns := s.clone()
